@@ -5,17 +5,20 @@
 EXTENDS Integers, Sequences, FiniteSets, Num, JsonDoc, Tmpl, Pattern, Regex
 
 NormPair(p) == LET r == Norm(p[1], p[2]) IN <<r.n, r.d>>
-WireMatchers(ms) == [k \in DOMAIN ms |-> [label |-> ms[k].label, op |-> ms[k].op, val |-> ms[k].val]]
+\* the compiled expression of a regex position: a matcher's is anchored on both sides, a line filter's is as written
+Anchored(op, val) == IF op \in {"re", "nre"} THEN <<94, 40, 63, 58>> \o val \o <<41, 36>> ELSE <<>>
+WireMatchers(ms) == [k \in DOMAIN ms |-> [label |-> ms[k].label, op |-> ms[k].op, val |-> ms[k].val, re |-> Anchored(ms[k].op, ms[k].val)]]
 
 RECURSIVE WirePred(_)
-WirePred(p) == CASE p.t = "m" -> [t |-> "m", label |-> p.label, op |-> p.op, val |-> p.val]
+WirePred(p) == CASE p.t = "m" -> [t |-> "m", label |-> p.label, op |-> p.op, val |-> p.val, re |-> Anchored(p.op, p.val)]
                  [] p.t \in {"num", "dur", "bytes"} -> [t |-> p.t, label |-> p.label, op |-> p.op, val |-> NormPair(p.val)]
                  [] p.t = "ip" -> [t |-> "ip", label |-> p.label, op |-> p.op, val |-> p.val]
                  [] p.t = "paren" -> WirePred(p.a)                      \* parentheses carry no meaning of their own
                  [] p.t \in {"and", "or"} -> [t |-> p.t, a |-> WirePred(p.a), b |-> WirePred(p.b)]
 
 WireStage(st) ==
-  CASE st.t = "line" -> [t |-> IF "ip" \in DOMAIN st /\ st.ip THEN "lineip" ELSE "line", op |-> st.op, val |-> st.val]
+  CASE st.t = "line" -> IF "ip" \in DOMAIN st /\ st.ip THEN [t |-> "lineip", op |-> st.op, val |-> st.val]
+                        ELSE [t |-> "line", op |-> st.op, val |-> st.val, re |-> IF st.op \in {"re", "nre"} THEN st.val ELSE <<>>]
     [] st.t = "label" -> [t |-> "label", pred |-> WirePred(st.pred)]
     [] st.t = "json" -> [t |-> "json", labels |-> st.labels, exprs |-> [k \in DOMAIN st.exprs |-> <<st.exprs[k].label, PathText(st.exprs[k].path, TRUE)>>]]
     [] st.t = "logfmt" -> [t |-> "logfmt", labels |-> st.labels, exprs |-> [k \in DOMAIN st.lexprs |-> <<st.lexprs[k].label, st.lexprs[k].key>>]]
